@@ -67,6 +67,10 @@ POOL = [
     ('named', False, 'n', ('tok', 'a')), ('named', True, 'm', ('tok', 'b')), ('over', False, ('tok', 'c')),
     'empty', 'void', ('const', 'k'), ('look', False, ('tok', 'a')), ('skipgroup', ('tok', 'a')),
     ('named', False, 'n', ('group', ('seq', [('tok', 'b'), ('tok', 'c')]))), ('named', False, 'n', ('rep', False, None, False, ('tok', 'a'))),
+    # names nested inside a named element: they are names of the rule too (None / [] when their part does not match)
+    ('named', False, 'n', ('opt', ('seq', [('tok', 'a'), ('named', False, 'k', ('tok', 'b'))]))),
+    ('named', False, 'n', ('group', ('choice', [('tok', 'a'), ('named', False, 'k', ('tok', 'b'))]))),
+    ('named', True, 'm', ('rep', False, None, False, ('seq', [('tok', 'a'), ('named', True, 'j', ('tok', 'b'))]))),
     # elements that do NOT skip whitespace, next to elements that do (also after rules that match nothing)
     'dot', ('pat', r'\s*b'), ('pat', r'\s+c'), ('call', 'optr'), ('call', 'lookr'), ('call', 'UP'),
 ]
